@@ -153,7 +153,7 @@ pub fn observe_root(start: &[u8], path: &Path) -> String {
         return format!("{}=missing", hex(start));
     }
     let mut out = vec![];
-    let mut budget = 20000;
+    let mut budget = 60000;
     observe_into(path, b"", &mut vec![], &mut out, &mut budget);
     format!("{}={}", hex(start), out.join("/"))
 }
